@@ -12,7 +12,8 @@ RULE = ("scenario = one real threading Scheduler with 2-5 jobs (one-shots and un
         "performing 1-3 public operations (exec_jobs forced or not, scheduling, delete_job, delete_jobs by tags/all, get_jobs, jobs, "
         "str, repr), n_threads in {1,2,0}; every lock acquire/release, queue operation, thread start/join and callback boundary "
         "is a scheduling point (25% of the scenarios additionally at every source line of the registry operations); the "
-        "interleaving is chosen by a seeded random or PCT scheduler and recorded; Spec (Lean): the completed calls are "
+        "interleaving is chosen by a seeded random, PCT or one-long-preemption scheduler (20%: one thread is suspended after k of its steps "
+        "until all others are done or blocked - the schedule that opens read-modify-write windows) and recorded; Spec (Lean): the completed calls are "
         "linearizable w.r.t. the sequential registry machine with exec_jobs acting at two atomic points; no internal error, no "
         "deadlock, at most one invocation per (exec_jobs call, job), attempts <= max_attempts; dynamic lock discipline: every "
         "acquisition respects the rank order exec-lock < registry lock < job lock < timer lock and nobody waits for a thread or "
@@ -72,7 +73,9 @@ def gen_scenario(rng, opts=None):
         threads.append(ops)
     return {"tz": None, "n_threads": rng.choice([1, 1, 2, 0]), "clock0": clock, "advance": rng.choice([2, 2, 0]) * S + rng.choice([0, 500_000]),
             "jobs": jobs, "threads": threads, "ops": [],
-            "sched": {"kind": "random" if exec_heavy else rng.choice(["random", "random", "pct"]), "seed": rng.randrange(10**9), "depth": rng.randint(1, 4)},
+            "sched": ({"kind": "pause", "victim": rng.randrange(nthreads), "at": rng.randint(0, 30), "seed": rng.randrange(10**9)}
+                      if rng.random() < opts.get("p_pause", 0.2) else
+                      {"kind": "random" if exec_heavy else rng.choice(["random", "random", "pct"]), "seed": rng.randrange(10**9), "depth": rng.randint(1, 4)}),
             "line_preempt": exec_heavy or rng.random() < opts.get("p_line", 0.4), "cb_len": rng.choice([0, 4, 12]) if exec_heavy else 0}
 
 
@@ -175,6 +178,8 @@ def runner(scn):
     scn["sched"] = {"kind": "replay", "seq": out["schedule"], "seed": scn.get("sched", {}).get("seed", 0)}
     lines = ["S N 0 0", "spec eq 0 0"]
     problems = []
+    if out.get("uncontrollable"):
+        problems.append("harness cannot control this implementation's threads/queues: " + str(out["uncontrollable"])[:160])
     if out["bad_edges"]:
         problems.append("rank-violation " + json.dumps(out["bad_edges"][:3]))
     if out.get("wait_violations"):
@@ -189,6 +194,8 @@ def specs(r):
     out = r["obs"][0]
     scn = r["scn"]
     qs = []
+    if out.get("uncontrollable"):
+        return qs
     if out.get("deadlock"):
         qs.append(("spec eq 0 1", {"what": "deadlock", "waits": out["deadlock"]}))
         return qs
